@@ -24,7 +24,7 @@ from ..sym import R, real
 from .C10 import _sym66, _to_tensor, _to_voigt
 from .C11 import _mode_rotate
 from .C13 import sym_sqrt_apps
-from .common import all_eq, eq, np_installed, pydrex_modules, sample
+from .common import all_eq, eq, np_installed, pydrex_modules, sample, only_path
 
 TIMEOUT_MS = {"quick": 90000, "thorough": 300000}
 
@@ -89,7 +89,7 @@ def t_isotropic_part(sess):
 
     with np_installed(diag, tensors):
         paths, _ = sym.explore(fn)
-    p = paths[0]
+    p = only_path(sess, paths)
     C, loc, s2, e1, e2 = p.value
     K, G = loc["K"], loc["G"]
     x, xi = loc["voigt_vector"], loc["isotropic_vector"]
@@ -158,7 +158,7 @@ def t_frame_invariance(sess, axis=None):
 
     with np_installed(diag, tensors):
         paths, _ = sym.explore(fn)
-    p = paths[0]
+    p = only_path(sess, paths)
     rules, a, b = p.value
     tag = f"frame invariance[{'general R(q)' if axis is None else 'axis %d' % axis}]"
     sess.satisfiable(f"{tag}: reach", p.pc)
